@@ -30,6 +30,7 @@ fn main() {
         Some("one") if a.len() >= 6 => run::one_main(&a[2], tier(&a[3]), a[4].parse().unwrap_or(0), a[5].parse().unwrap_or(0)),
         Some("replay") if a.len() >= 3 => run::replay_main(Path::new(&a[2])),
         Some("shrink") if a.len() >= 4 => run::shrink_main(Path::new(&a[2]), Path::new(&a[3])),
+        Some("selftest") => run::selftest_main(&a[2..].iter().filter(|x| x.as_str() != "determinism").cloned().collect::<Vec<_>>()),
         Some("show") if a.len() >= 3 => {
             lab::install_panic_hook();
             let rf: run::ReplayFile = serde_json::from_slice(&std::fs::read(&a[2]).unwrap()).unwrap();
